@@ -620,7 +620,7 @@ void add_function_ref()
         o << finish(r, "int") << " c=" << V{c};
         return o.s;
     });
-    add_family("fref.byvalue_and_result", "function_ref", 5, 1, []<class L>(int x, int) {
+    add_family("fref.byvalue_and_result", "function_ref", 6, 1, []<class L>(int x, int) {
         begin();
         Logger f{3};
         S s;
@@ -650,6 +650,14 @@ void add_function_ref()
             auto w = make_fref<L, void(int)>(f);
             w(2);
             o << finish(0, type_name<decltype(w(2))>());
+            break;
+        }
+        case 4: { // reference result: type and identity unchanged
+            RetRef rr;
+            auto w  = make_fref<L, int&()>(rr);
+            using R = decltype(w());
+            R r     = w();
+            o << finish(r, type_name<R>()) << " same:" << (&r == &g_int);
             break;
         }
         default: { // member function pointer target
@@ -996,7 +1004,7 @@ void add_compositions()
         return finish(r, "int");
     });
     // inplace_function targets other than functors (a member pointer target is EXCLUDED: the invoke thunk uses call syntax)
-    add_family("ipf.targets", "inplace_function.forwarding", 4, 1, []<class L>(int x, int) {
+    add_family("ipf.targets", "inplace_function.forwarding", 6, 1, []<class L>(int x, int) {
         begin();
         int r        = 0;
         int captured = 5;
@@ -1011,6 +1019,23 @@ void add_compositions()
             });
             auto c = w; // copies share the referenced variable
             r      = w(1) * 100 + c(1);
+            break;
+        }
+        case 3: { // reference result: type and identity unchanged
+            auto w  = make_ipf<L, int&()>(RetRef{});
+            using R = decltype(w());
+            R v     = w();
+            r       = v + (&v == &g_int ? 1000 : 0);
+            break;
+        }
+        case 4: { // void signature, void callable
+            auto w = make_ipf<L, void(int)>([&captured](int v) {
+                log_call("void lambda", v, "-");
+                captured += v;
+            });
+            w(3);
+            w(4);
+            r = captured;
             break;
         }
         default: {
